@@ -278,7 +278,7 @@ pub enum Statement {
         var: Ref,
         span: Span,
         variables: Vec<String>,
-        fields: HashMap<String, (Span, Type)>,
+        fields: BTreeMap<String, (Span, Type)>,
         external: bool,
     },
 
@@ -287,7 +287,7 @@ pub enum Statement {
         var: Ref,
         span: Span,
         variables: Vec<String>,
-        variants: HashMap<String, (Span, Type)>,
+        variants: BTreeMap<String, (Span, Type)>,
     },
 
     /// Defines a new variable.
